@@ -32,6 +32,9 @@ type ClScenario struct {
 	// CancelInStop: the parent context is cancelled from inside the first Stop() of a slow-stopping server, i.e. while
 	// an update (or the shutdown) is in its stop phase with that Stop() still in flight
 	CancelInStop bool `json:"cancelInStop,omitempty"`
+	// CancelInFactory: the parent context is cancelled from inside the factory call for this id (the second time the
+	// factory is asked for it): an update is in its start phase, servers it has already started are running
+	CancelInFactory string `json:"cancelInFactory,omitempty"`
 }
 
 type clServer struct {
@@ -135,10 +138,21 @@ func runClScenario(sc ClScenario) clResult {
 				return nil, errors.New("factory failed (transient)")
 			}
 		}
+		if sc.CancelInFactory != "" && sc.CancelInFactory == id {
+			onceMu.Lock()
+			failedOnce["#"+id] = true
+			onceMu.Unlock()
+			if f := cancelInStop.Load(); f != nil {
+				(*f)()
+			}
+		}
 		n := int(inst.Add(1))
 		rec.add("FA:%s:%d:%d", hx(id), cfgIndex(cfg), n)
 		s := &clServer{id: id, inst: n, rec: rec, ready: !in(sc.NeverReady, id), slowStop: in(sc.SlowStop, id), stopCh: make(chan struct{}),
 			started: make(chan struct{}), done: make(chan struct{}), live: &live}
+		if sc.CancelInFactory != "" {
+			s.onStop = func() {} // a server that drains for a while after it was told to stop (or its context ended)
+		}
 		if sc.CancelInStop {
 			s.onStop = func() {
 				if f := cancelInStop.Load(); f != nil {
@@ -358,6 +372,14 @@ func genClScenario(r interface {
 }
 
 var clCorpus = []ClScenario{
+	// the parent context ends while an update is in its start phase (from inside the factory call for the last id):
+	// the servers that update has already started are stopped before Run() returns
+	{IDs: []string{"a", "b", "c", "d"}, Maps: []map[string]int{{"a": 0, "b": 0, "c": 0, "d": 0}}, SlowStop: []string{"a", "b", "c"},
+		CancelInFactory: "d", End: "cancel", EndAfter: 1},
+	{IDs: []string{"a", "b", "c"}, Maps: []map[string]int{{"a": 0}, {"a": 0, "b": 0, "c": 0}}, SlowStop: []string{"a", "b"},
+		CancelInFactory: "c", End: "cancel", EndAfter: 2},
+	{IDs: []string{"a", "b", "c"}, Maps: []map[string]int{{"a": 0, "b": 0}, {"a": 1, "b": 1, "c": 0}}, SlowStop: []string{"a", "b"},
+		CancelInFactory: "c", End: "stop", EndAfter: 2},
 	// the parent context ends while an update is stopping a removed / a changed server whose Stop() takes its time:
 	// Run() returns only after that server has stopped
 	{IDs: []string{"a", "b"}, Maps: []map[string]int{{"a": 0, "b": 0}, {"b": 0}}, SlowStop: []string{"a"}, CancelInStop: true, End: "cancel", EndAfter: 2},
